@@ -15,7 +15,7 @@ import os
 import random
 import re
 
-from .. import simrt, tlc, msgs
+from .. import simrt, tlc, msgs, explore
 from ..common import Check, OUT, fan_out
 from ..load import load
 
@@ -111,20 +111,43 @@ def run_stream(cfg):
                 and m.header.end_to_end_identifier == f
             fid = f if ok else 0
             delivered.append(fid)
-            if events and events[-1]["ev"] == "iter":
-                events[-1]["del"] = fid
+            for e in reversed(events):          # the iteration that decoded it (the feeding thread may have logged a read since)
+                if e["ev"] == "iter":
+                    e["del"] = fid
+                    break
 
         conn.message_handler = handler
         mode = cfg.get("mode", "lockstep")
         rng = random.Random(mode) if isinstance(mode, int) else None
+        gaps = set(cfg.get("gaps", ()))        # chunk indexes after which the stream stays silent for 6 s (longer than the reader's poll)
         try:
-            s.run()
-            for ch in chunks:
-                conn.add_in_bytes(ch)
-                events.append({"ev": "recv"})
-                if mode == "lockstep" or (rng is not None and rng.random() < 0.5):
-                    s.run()
-            s.run()
+            if mode == "sched":
+                # the I/O loop's side as a thread of its own: every schedule of it against the reader, with a scheduling point
+                # before every source line of work_read_queue and add_in_bytes (cfg["schedule"] = choice prefix)
+                pol = explore.Decisions(cfg.get("schedule", ()))
+                s.policy = pol
+                cfg["_policy"] = pol
+                s.tracefn = explore.make_line_tracer(s, {P.PeerConnection.work_read_queue.__code__: "rd",
+                                                         P.PeerConnection.add_in_bytes.__code__: "add"}, call_boundaries=False)
+
+                def feeder():
+                    for ch in chunks:
+                        events.append({"ev": "recv"})      # logged before the put: the reader cannot have seen the chunk earlier
+                        conn.add_in_bytes(ch)
+                simrt.Thread(target=feeder, name="feeder").start()
+                s.run()
+            else:
+                s.run()
+                for ci, ch in enumerate(chunks):
+                    conn.add_in_bytes(ch)
+                    events.append({"ev": "recv"})
+                    if mode == "lockstep" or (rng is not None and rng.random() < 0.5) or ci in gaps:
+                        s.run()
+                    if ci in gaps and conn.state != P.PEER_CLOSED:
+                        s.advance(6)
+                        s.run()
+                        events.append({"ev": "timeout", "n": len(conn._read_buffer)})
+                s.run()
             # let timed waits elapse once: nothing may change
             s.advance(6)
             s.run()
@@ -157,11 +180,32 @@ def run_stream(cfg):
         simrt.install(None)
     return {"frames": [{"kind": f["kind"], "real": f["real"], "declared": f["declared"]} for f in frames],
             "cuts": cuts, "ev": events, "delivered": delivered, "final": final,
-            "maxiter": st["maxiter"] + (1 if st["spin"] else 0), "exits": [(n, e) for n, e, _ in s.exits], "mode": mode}
+            "maxiter": st["maxiter"] + (1 if st["spin"] else 0), "exits": [(n, e) for n, e, _ in s.exits], "mode": mode,
+            "gaps": sorted(cfg.get("gaps", ())), "schedule": [r[1] for r in cfg["_policy"].records] if "_policy" in cfg else []}
 
 
 def _job(cfgs):
-    return [run_stream(c) for c in cfgs]
+    out = []
+    for c in cfgs:
+        if c.get("mode") == "sched":
+            out += explore_schedules(c)
+        else:
+            out.append(run_stream(c))
+    return out
+
+
+def explore_schedules(cfg):
+    """every schedule of the feeding thread against the reader with at most cfg['preempt'] preemptions"""
+    out = []
+
+    def one(pol):
+        c = dict(cfg, schedule=list(pol.prefix))
+        r = run_stream(c)
+        pol.records = c["_policy"].records
+        return r
+    for r, pol in explore.explore(one, cfg["preempt"], max_runs=cfg.get("max_runs", 4000)):
+        out.append(r)
+    return out
 
 
 def gen_configs(tier, seed):
@@ -213,6 +257,21 @@ def gen_configs(tier, seed):
                 for _ in range(6 if thorough else 2):
                     k = rng.randint(2, 6)
                     add(fr, sorted(rng.sample(range(1, L), min(k, L - 1))), rng.randint(1, 10 ** 6))
+    # (b2) silence in the middle of a frame: the stream pauses for longer than the reader's poll after any chunk
+    base = list(out)
+    k = 0
+    for c in base:
+        if c["mode"] == "lockstep" and 1 <= len(c["cuts"]) <= 8:
+            k += 1
+            if thorough or k % 3 == 0:
+                n = len(c["cuts"]) + 1
+                out.append(dict(c, gaps=sorted({rng.randrange(n), rng.randrange(n)}) if n > 2 else [0]))
+    # (b3) every schedule of the I/O loop's add_in_bytes against the reader (source-line grain, preemption bound 2; 3 thorough)
+    for spec, cuts in (([("good", 4, 0), ("good", 4, 0), ("good", 4, 0)], [20, 40]), ([("good", 4, 0), ("good", 0, 0)], [7, 20, 31]),
+                       ([("undec", 0, 0), ("good", 4, 0)], [33, 40]), ([("good", 4, 0), ("lenLong", 4, 0), ("good", 4, 0)], [20, 25])):
+        add(stream(spec), cuts, "sched")
+        out[-1]["preempt"] = 3 if thorough else 2
+        out[-1]["max_runs"] = 20000 if thorough else 2500
     # (c) long streams: 4..6 frames incl. 8 KiB, random k-cuts, byte-at-a-time, 2048-byte reads
     for i in range(60 if thorough else 12):
         n = rng.randint(4, 6)
@@ -280,6 +339,7 @@ def run(tier, seed):
     # ---- B. code --------------------------------------------------------------
     load()
     cfgs = gen_configs(tier, seed)
+    cfgs.sort(key=lambda c: c["mode"] != "sched")         # the schedule explorations are the long jobs: one per worker, started first
     jobs = [cfgs[i::64] for i in range(64)]
     results = [r for chunk in fan_out(_job, jobs) for r in chunk]
     ck.cov["evaluations"] = len(results)
@@ -288,7 +348,7 @@ def run(tier, seed):
     verdict_in = []
     for r in results:
         verdict_in.append({"frames": r["frames"], "cuts": [], "ev": [], "delivered": r["delivered"], "final": r["final"], "maxiter": r["maxiter"]})
-        distinct.add((tuple((f["kind"], f["real"], f["declared"]) for f in r["frames"]), tuple(r["cuts"]), str(r["mode"])))
+        distinct.add((tuple((f["kind"], f["real"], f["declared"]) for f in r["frames"]), tuple(r["cuts"]), str(r["mode"]), tuple(r["gaps"]), tuple(r["schedule"])))
     verdicts = []
     B = 20000
     for off in range(0, len(verdict_in), B):
@@ -312,7 +372,7 @@ def run(tier, seed):
                                       "wellformed" if all(f["declared"] == f["real"] for f in r["frames"]) else "bad_length"),
                          "stream %s (declared/real %s) cuts %r mode %s: delivered %r final %s maxiter %d exits %r" % (
                              kinds, [(f["declared"], f["real"]) for f in r["frames"]], r["cuts"][:8], r["mode"], r["delivered"], r["final"], r["maxiter"], r["exits"]),
-                         {"frames": r["frames"], "cuts": r["cuts"], "mode": r["mode"]})
+                         {"frames": r["frames"], "cuts": r["cuts"], "mode": r["mode"], "gaps": r["gaps"], "schedule": r["schedule"]})
     ck.cov["monitor_violations_seen"] = nviol
     ck.cov["distinct_nontrivial"] = len(distinct)
     ck.cov["rule"] = ("one evaluation = the real work_read_queue run on one concrete stream x chunking x feed mode; distinct by "
@@ -376,7 +436,7 @@ def replay(path, seed):
     if len(frames) != len(rp["frames"]):
         print("MACHINERY cannot rebuild frames")
         return 2
-    r = run_stream({"frames": frames, "cuts": rp["cuts"], "mode": rp["mode"]})
+    r = run_stream({"frames": frames, "cuts": rp["cuts"], "mode": rp["mode"], "gaps": rp.get("gaps", []), "schedule": rp.get("schedule", [])})
     print("replayed: delivered=%r final=%s maxiter=%d" % (r["delivered"], r["final"], r["maxiter"]))
     bad = r["maxiter"] > 1 or r["final"] in ("dead", "stuck", "spin")
     good = [i + 1 for i, f in enumerate(frames) if f["kind"] == "good"]
